@@ -61,6 +61,11 @@ errcode_t ext2fs_resize_inode_bitmap2(__u64 new_end, __u64 new_real_end, ext2fs_
 	return VF_SENTINEL;
 }
 
+#ifndef VF_REPLAY
+/* STUB: gettext() returns its argument (message of the "too many inodes" refusal) */
+char *gettext(const char *m) { return (char *) m; }
+#endif
+
 /* reference: backup placement of the on-disk format (sparse_super: groups 0, 1 and powers of 3, 5, 7) */
 static int ref_is_power(__u64 g, __u64 b)
 {
